@@ -45,7 +45,8 @@ def array_support(func):
                 vals.append(iterator(v, *args[1:], **kwargs))
 
             if isinstance(args[0], np.ndarray):
-                vals = np.array(vals)
+                # Python integers beyond int64 are kept as objects (a mixed list would be converted to float64)
+                vals = np.array(vals, dtype=object) if has_big_int(vals) else np.array(vals)
             return vals
         else:
             return func(*args, **kwargs)
@@ -54,6 +55,8 @@ def array_support(func):
 #%%
 @array_support
 def twos_complement_repr(val, nbits):
+    if isinstance(val, np.integer):
+        val = int(val)      # the modulus of a 63-bit or wider word does not fit in a NumPy integer
     if val < 0:
         val = (1 << nbits) + val
     else:
@@ -389,7 +392,7 @@ def min_pow2(x, n_frac=0):
 def binary_invert(x, n_word=None):
     if n_word is None:
         n_word = bits_len(x)
-    return int((1 << n_word) - 1 - x)
+    return int((1 << n_word) - 1 - int(x))
 
 @array_support
 def binary_and(x, y, n_word=None):
